@@ -31,15 +31,32 @@ Definition is_blocked_hand (now : Z) (b : blocking) : bool :=
   | Some u => u >? now
   end.
 
+(* These three proofs are deliberately not `reflexivity`: they case-split on every test and
+   compare the results arithmetically, so a behaviour-preserving rewrite of the Python
+   methods (other temporaries, `a if c else b` instead of min, reordered tests) still checks,
+   while a different growth law or a different comparison does not. *)
+Ltac blk_crush :=
+  repeat (cbv beta iota zeta;
+          match goal with
+          | |- context [if ?b then _ else _] => destruct b eqn:?
+          | |- context [match ?o with Some _ => _ | None => _ end] => is_var o; destruct o
+          end);
+  cbv beta iota zeta;
+  repeat (f_equal; try lia); try lia; try (exfalso; lia).
+
 Lemma block_spec : forall c now b, block c now b = block_hand c now b.
 Proof.
-  intros c now [l [u|]]; unfold block, block_hand, BlockingStatus_block; cbn [b_until b_last];
-    [destruct (u >? now)|]; reflexivity.
+  intros c now [l o]; unfold block, block_hand, BlockingStatus_block; cbn [b_until b_last]. blk_crush.
 Qed.
 Lemma unblock_spec : forall b, unblock b = unblock_hand b.
-Proof. reflexivity. Qed.
+Proof.
+  intros [l o]; unfold unblock, unblock_hand, BlockingStatus_unblock; cbn [b_until b_last]. blk_crush.
+Qed.
 Lemma is_blocked_spec : forall now b, is_blocked now b = is_blocked_hand now b.
-Proof. intros now [l [u|]]; reflexivity. Qed.
+Proof.
+  intros now [l o]; unfold is_blocked, is_blocked_hand, BlockingStatus_is_blocked; cbn [b_until b_last].
+  blk_crush; match goal with |- ?x = ?y => destruct x eqn:?; destruct y eqn:?; try reflexivity; exfalso; lia end.
+Qed.
 
 (* ------------------------------------------------------------------ finish *)
 Definition both_ok (s : state) : bool := s_ok (st_bat s) && s_ok (st_inv s).
